@@ -145,8 +145,33 @@ def check_finder(col, rule: str, repo: Repo):
         for n in ast.walk(tc.node))
     col.add(rule, "cpp_ast_finder.try_call", "callback-of-that-name-applied-to-the-node", bool(okt),
             "try_call must invoke self._method_names[name](node)", tc.loc if tc else c.module.rel)
+    # the rewriter decides by the call's own name only: it keeps no traversal state (a set of "currently bound" names is wrong as soon
+    # as an inner lambda re-uses an outer parameter's name) and defines no handler besides visit_Call
+    writes = []
+    for mn, mf in c.methods.items():
+        if mn == "__init__":
+            continue
+        for n in ast.walk(mf.node):
+            if isinstance(n, ast.Attribute) and isinstance(n.ctx, (ast.Store, ast.Del)) and isinstance(n.value, ast.Name) and n.value.id == "self":
+                writes.append(f"{mn}:{src(n)}")
+            if isinstance(n, ast.Call) and isinstance(n.func, ast.Attribute) and n.func.attr in ("add", "append", "remove", "discard", "pop", "update", "clear", "extend") \
+                    and src(n.func.value).startswith("self."):
+                writes.append(f"{mn}:{src(n)[:40]}")
+    handlers = sorted(mn for mn in c.methods if mn.startswith("visit_") and mn != "visit_Call")
+    col.add(rule, "cpp_ast_finder", "stateless-single-handler", not writes and not handlers,
+            f"the plug-in rewriter must not keep traversal state (writes: {writes}) nor treat other node kinds specially (handlers: {handlers}): "
+            "whether a call is rewritten may depend only on its own name", c.module.rel)
     # the executor builds the finder from its own table plus this query's metadata, on a copy
     aat = repo.method("executor", "apply_ast_transformations", hint="common.executor")
+    # ... from EVERY specification the metadata produced: the comprehension that registers functions and collections runs over the
+    # list returned by process_metadata itself (an index by name in between drops one of two declarations sharing a name)
+    pmv = [n.targets[0].id for n in walk_no_nested(aat.node) if isinstance(n, ast.Assign) and isinstance(n.value, ast.Call)
+           and call_name(n.value) == "process_metadata" and isinstance(n.targets[0], ast.Name)]
+    comps = [x for x in ast.walk(aat.node) if isinstance(x, (ast.DictComp, ast.ListComp)) and ("build_CPPCodeValue" in src(x) or "build_collection_callback" in src(x))]
+    loops_ = [x for x in walk_no_nested(aat.node) if isinstance(x, ast.For) and ("build_CPPCodeValue" in src(x) or "build_collection_callback" in src(x))]
+    srcs = [src(g.iter) for x in comps for g in x.generators] + [src(x.iter) for x in loops_]
+    col.add(rule, "executor.apply_ast_transformations", "every-specification-of-the-query-registered", len(pmv) == 1 and bool(srcs) and all(s_ == pmv[0] for s_ in srcs),
+            f"functions and collections must be registered from the list process_metadata returned ({pmv}); found iteration over {srcs}", aat.loc)
     fin = [c2 for c2 in ast.walk(aat.node) if isinstance(c2, ast.Call) and call_name(c2) == "cpp_ast_finder"]
     okc = len(fin) == 1 and isinstance(fin[0].args[0], ast.Name)
     if okc:
@@ -191,20 +216,28 @@ def late_binding_closures(fn: ast.AST) -> List[str]:
 _SUB_CACHE = {}
 
 
+_DEPTH = 0
+
+
 def import_obligations(col, new_rule: str, module: str, pred, why: str = ""):
     """Re-state obligations established by another property's checker under this property (one mechanism often
-    carries several properties).  `pred(ob)` selects them; the sub-run is cached per process."""
+    carries several properties).  `pred(ob)` selects them; the sub-run is cached per process.  Only obligations that are
+    NATIVE to the other checker can be imported: inside a sub-run, cross-references are not followed (no cycles, no
+    transitive cost) - a rule that is needed by three properties is imported by each of them from where it is defined."""
     import importlib
     from sa.core.common import Collector
-    if _SUB_CACHE.get(module) == "in-progress":
-        raise AnalysisError(f"circular cross-reference between property checkers through {module}")
+    global _DEPTH
+    if _DEPTH > 0:
+        return
     if module not in _SUB_CACHE:
-        _SUB_CACHE[module] = "in-progress"
         sub = Collector(module)
+        _DEPTH += 1
         try:
             importlib.import_module(f"sa.props.{module}").check(sub, "quick")
         except AnalysisError as e:
             sub.broken = str(e)
+        finally:
+            _DEPTH -= 1
         _SUB_CACHE[module] = sub
     if getattr(_SUB_CACHE[module], "broken", None):
         # the other checker cannot analyse this tree (it reports that itself): this property is decided without the shared rule
@@ -413,9 +446,16 @@ def check_core_scope_semantics(col, rule: str, repo: Repo):
 # flags incl. O_TRUNC)); <path>.write_text(.render(info)).
 def check_copy_template(col, rule: str, repo, details=("renders-that-template-into-that-file", "output-file-replaced-not-overlaid", None)):
     ex = repo.find_class("executor", hint="common.executor")
-    cp = ex.methods.get("_copy_template_file")
-    if cp is None:
+    if ex.methods.get("_copy_template_file") is None:
         raise AnalysisError("executor._copy_template_file not found")
+    # the base method and every override a backend executor may add are held to the same contract
+    for k in [ex] + list(repo.subclasses(ex)):
+        cp = k.methods.get("_copy_template_file")
+        if cp is not None:
+            _check_one_copy_template(col, rule, repo, cp, details)
+
+
+def _check_one_copy_template(col, rule: str, repo, cp, details):
     prm = [a.arg for a in cp.node.args.args]
     if len(prm) != 5:
         raise AnalysisError(f"_copy_template_file parameters are {prm}: expected (self, env, info, template_file, final_dir)")
@@ -633,6 +673,9 @@ def literal_str_collection(repo, module, scope_stmts, e, notes: List[str], depth
 # translation-time code keeps no state on the nodes of the query: the only attributes it may set on an object it did
 # not create itself are node.rep / node.scope in crep.set_rep (whose validity is re-tested on every use).  A flag left
 # on a (user-owned, re-usable) AST node outlives the generated_code object it referred to.
+NODE_MUTATORS = {"append", "extend", "insert", "pop", "remove", "clear", "update", "add", "discard", "setdefault", "sort", "reverse", "popitem"}
+
+
 def check_no_state_on_query_nodes(col, rule: str, repo: Repo):
     tr = repo.mod("common.ast_to_cpp_translator")
     funcs = list(tr.all_funcs) + [repo.function("process_ast_node")]
@@ -648,6 +691,11 @@ def check_no_state_on_query_nodes(col, rule: str, repo: Repo):
                 base = n.value
             elif isinstance(n, ast.Call) and call_name(n) in ("setattr", "delattr") and n.args:
                 base = n.args[0]
+            if base is None and isinstance(n, ast.Call) and isinstance(n.func, ast.Attribute) and n.func.attr in NODE_MUTATORS \
+                    and isinstance(n.func.value, ast.Attribute):
+                base = n.func.value.value          # <obj>.<field>.pop() changes <obj>
+                if isinstance(base, ast.Name) and base.id == selfn or src(base).startswith(f"{selfn}."):
+                    base = None
             if base is None:
                 continue
             n_sites += 1
@@ -949,3 +997,201 @@ def check_lambda_frames(col, rule: str, repo: Repo, m):
     col.add(rule, vcl.short, "single-binding-site", [f.short for f, _ in sites] == [vcl.short],
             f"define_name is called from {[f.short for f, _ in sites]}; only visit_Call_Lambda may bind names")
 
+
+
+# ---------------------------------------------------------------------------------------------------------------
+# CMS job configuration: every line of filelist.txt becomes an input file (no filter between the list and PoolSource)
+def check_cfg_filelist(col, rule: str):
+    from sa.core.common import REPO
+    for r in ("r5", "r7"):
+        rel = f"func_adl_xAOD/template/cms/{r}/analyzer_cfg.py"
+        p = REPO / rel
+        if not p.exists():
+            raise AnalysisError(f"{rel} not found")
+        tree = ast.parse(p.read_text())
+        defs = {}
+        for n in tree.body:
+            if isinstance(n, ast.Assign) and len(n.targets) == 1 and isinstance(n.targets[0], ast.Name):
+                defs.setdefault(n.targets[0].id, []).append(n.value)
+        src_kw = [k for k in ast.walk(tree) if isinstance(k, ast.keyword) and k.arg == "fileNames"]
+        seen, work, filters, reads = set(), [k.value for k in src_kw], [], False
+        while work:
+            e = work.pop()
+            for x in ast.walk(e):
+                if isinstance(x, ast.comprehension) and x.ifs:
+                    filters += [src(i) for i in x.ifs]
+                if isinstance(x, ast.Call) and call_name(x) in ("filter", "takewhile", "islice"):
+                    filters.append(src(x)[:50])
+                if isinstance(x, ast.Subscript) and isinstance(x.slice, ast.Slice) and not isinstance(x.value, ast.Constant):
+                    filters.append(src(x)[:50])
+                if isinstance(x, ast.Call) and call_name(x) in ("readlines", "read", "open") :
+                    reads = True
+                if isinstance(x, ast.Name) and x.id in defs and x.id not in seen:
+                    seen.add(x.id)
+                    work.extend(defs[x.id])
+        col.add(rule, f"template:cms/{r}/analyzer_cfg.py", "every-listed-file-is-an-input", len(src_kw) == 1 and reads and not filters,
+                f"PoolSource.fileNames must be built from every line of the file list; conditions/slices on the way: {filters}: a listed file that "
+                "is silently left out gives a result made from a subset", rel)
+
+
+# ---------------------------------------------------------------------------------------------------------------
+# the three backends translate alike: a backend visitor overrides only what the base class leaves abstract
+def check_backend_visitors_override_only_abstract(col, rule: str, repo: Repo):
+    base = repo.find_class("query_ast_visitor", hint="common.ast_to_cpp_translator")
+    abstract = {n for n, f in base.methods.items() if any("abstractmethod" in src(d) for d in f.node.decorator_list)}
+    subs = repo.subclasses(base)
+    if len(subs) < 3:
+        raise AnalysisError(f"{rule}: {len(subs)} backend visitors found (3 confirmed by hand)")
+    for k in subs:
+        extra = sorted(n for n in k.methods if n not in abstract and n != "__init__")
+        col.add(rule, k.name, "overrides-only-the-abstract-hooks", not extra,
+                f"{k.name} overrides {extra} of the shared translator: the property is stated for all three backends alike, and a handler that one "
+                f"backend re-defines (abstract hooks are {sorted(abstract)}) translates the same query differently there", k.module.rel)
+
+
+# ---------------------------------------------------------------------------------------------------------------
+# default method types are registered at construction and in reset() only - never between a query's metadata and its translation
+def check_default_types_not_reapplied(col, rule: str, repo: Repo):
+    n = 0
+    for f in repo.all_functions():
+        for c in walk_no_nested(f.node):
+            if isinstance(c, ast.Call) and call_name(c).startswith("define_default") and call_name(c).endswith("types"):
+                n += 1
+                ok = f.name in ("__init__", "reset")
+                col.add(rule, f.short, f"defaults-registered-only-at-construction-or-reset:{call_name(c)}", ok,
+                        f"{f.short} calls {call_name(c)}(): write_cpp_files obtains its visitor AFTER the query's metadata was processed, so defaults "
+                        "registered anywhere on that path overwrite the types the query declared for the same methods", f"{f.module.rel}:{c.lineno}")
+    if n < 6:
+        raise AnalysisError(f"{rule}: {n} default-type registrations found (6 confirmed by hand)")
+
+
+# ---------------------------------------------------------------------------------------------------------------
+# build configuration: no compiler option that relaxes IEEE arithmetic
+def check_no_fast_math(col, rule: str):
+    from sa.core.common import REPO
+    import re as _re
+    pat = _re.compile(r"-Ofast|-ffast-math|-funsafe-math-optimizations|-ffinite-math-only|-fassociative-math|-freciprocal-math|-fno-signed-zeros|-fno-trapping-math|/fp:fast")
+    n = 0
+    for p in sorted((REPO / "func_adl_xAOD/template").rglob("*")):
+        if p.is_file() and p.name in ("package_CMakeLists.txt", "BuildFile.xml", "runner.sh", "ATestRun_eljob.py", "analyzer_cfg.py"):
+            n += 1
+            hits = pat.findall(p.read_text())
+            col.add(rule, f"template:{p.relative_to(REPO / 'func_adl_xAOD/template')}", "no-value-changing-compiler-option", not hits,
+                    f"{hits}: such options let the compiler re-associate sums, replace divisions by reciprocal multiplications and assume no NaN/inf - "
+                    "the job then no longer computes what the emitted expressions say", str(p.relative_to(REPO)))
+    if n < 8:
+        raise AnalysisError(f"{rule}: {n} build/run configuration files found (8 confirmed by hand)")
+
+
+# ---------------------------------------------------------------------------------------------------------------
+# a comparison is rendered from its operands' own C++ text (shared by C13: operators, and C18: a constant operand keeps its value and kind)
+def check_compare_operands_verbatim(col, rule: str, m):
+    from sa.core.templates import parts, shape
+    vc = m.get("visit_Compare")
+    if vc is None:
+        raise AnalysisError("visit_Compare not found")
+    tpl = [c for c in ast.walk(vc.node) if isinstance(c, ast.Call) and call_name(c) == "cpp_value"]
+    sh = shape(parts(vc.node, tpl[0].args[0])) if len(tpl) == 1 else []
+    lr = {k: src(resolve_name(vc.node, ast.Name(id=k, ctx=ast.Load()))) for k in ("left", "right")}
+    ok = sh == ["(", "{left.as_cpp()}", "{compare_operations[type(node.ops[0])]}", "{right.as_cpp()}", ")"] \
+        and "node.left" in lr["left"] and "node.comparators[0]" in lr["right"]
+    col.add(rule, vc.short, "comparison-operands-rendered-as-they-are", ok,
+            f"both sides of a comparison must be the complete C++ text of their representations (template {sh}): re-rendering a constant operand "
+            "(a float suffix, a cast, fewer digits) changes its value or kind", vc.loc)
+
+
+# ---------------------------------------------------------------------------------------------------------------
+# generated names are made where they are used: unique_name() never runs at import time (module/class level, default argument)
+def check_unique_names_per_use(col, rule: str, repo: Repo):
+    bad = []
+    n_sites = 0
+    for mod in repo.modules.values():
+        for n in ast.walk(mod.tree):
+            if isinstance(n, ast.Call) and call_name(n) == "unique_name":
+                n_sites += 1
+                f = repo.enclosing_func(mod, n)
+                if f is None:
+                    bad.append(f"{mod.rel}:{n.lineno} (module/class level)")
+                else:
+                    g = f
+                    while g is not None:
+                        if isinstance(g.node, ast.Lambda):
+                            dflts = list(g.node.args.defaults) + [d for d in g.node.args.kw_defaults if d is not None]
+                        else:
+                            dflts = list(g.node.args.defaults) + [d for d in g.node.args.kw_defaults if d is not None]
+                        if any(n is x for d in dflts for x in ast.walk(d)):
+                            bad.append(f"{mod.rel}:{n.lineno} (default argument of {g.short}: evaluated once, at import)")
+                        g = g.parent
+    if n_sites < 10:
+        raise AnalysisError(f"{rule}: {n_sites} unique_name call sites found (at least 10 confirmed by hand)")
+    col.add(rule, "func_adl_xAOD", "names-generated-per-use", not bad,
+            f"unique_name() evaluated once per process gives every use the same C++ name: {bad}", "func_adl_xAOD")
+
+
+# ---------------------------------------------------------------------------------------------------------------
+# static well-formedness of the non-Python templates: delimiters balance once jinja tags are blanked (C/C++, CMake),
+# the XML fragments parse, the Python job files parse.  A template that is not balanced cannot render a compilable package.
+def check_template_balance(col, rule: str):
+    import re as _re
+    from sa.core.common import REPO
+    base = REPO / "func_adl_xAOD/template"
+    n = 0
+    for p in sorted(base.rglob("*")):
+        if not p.is_file():
+            continue
+        rel = str(p.relative_to(REPO))
+        txt = p.read_text()
+        kind = None
+        if p.suffix in (".cc", ".cxx", ".h", ".C"):
+            kind = "c++"
+        elif p.name.endswith("CMakeLists.txt"):
+            kind = "cmake"
+        elif p.suffix == ".xml":
+            kind = "xml"
+        elif p.suffix == ".py":
+            kind = "python"
+        if kind is None:
+            continue
+        n += 1
+        body = _re.sub(r"\{%-?.*?-?%\}", " ", txt, flags=_re.S)
+        body = _re.sub(r"\{\{.*?\}\}", "x", body, flags=_re.S)
+        ok, why = True, ""
+        if kind == "python":
+            try:
+                ast.parse(body)
+            except SyntaxError as e:
+                ok, why = False, f"does not parse as Python: {e.msg} (line {e.lineno})"
+        elif kind == "xml":
+            import xml.etree.ElementTree as ET
+            try:
+                ET.fromstring("<root>" + body + "</root>")
+            except ET.ParseError as e:
+                ok, why = False, f"not well-formed XML: {e}"
+        else:
+            if kind == "c++":
+                body = _re.sub(r"//[^\n]*", "", body)
+                body = _re.sub(r"/\*.*?\*/", "", body, flags=_re.S)
+                body = _re.sub(r'"(?:\\.|[^"\\\n])*"', '""', body)
+                body = _re.sub(r"'(?:\\.|[^'\\\n])'", "''", body)
+            else:
+                body = _re.sub(r"#[^\n]*", "", body)
+                body = _re.sub(r'"(?:\\.|[^"\\])*"', '""', body)
+            pairs = {")": "(", "]": "[", "}": "{"}
+            stack = []
+            line = 1
+            for ch in body:
+                if ch == "\n":
+                    line += 1
+                elif ch in "([{":
+                    stack.append((ch, line))
+                elif ch in ")]}":
+                    if not stack or stack[-1][0] != pairs[ch]:
+                        ok, why = False, f"unmatched `{ch}` at line {line}"
+                        break
+                    stack.pop()
+            if ok and stack:
+                ok, why = False, f"`{stack[-1][0]}` opened at line {stack[-1][1]} is never closed"
+        col.add(rule, f"template:{p.relative_to(base)}", "well-formed-with-tags-blanked", ok,
+                f"{kind} template {why or 'balances'}: an unbalanced template renders a package that cannot be built", rel)
+    if n < 12:
+        raise AnalysisError(f"{rule}: only {n} structured templates found (12 confirmed by hand)")
